@@ -759,6 +759,9 @@ func (self *TextCommandConverter) ConvertTextDecrCommand(textProtocol ITextProto
 }
 
 func (self *TextCommandConverter) ConvertTextExpireCommand(textProtocol ITextProtocol, args []string) (*LockCommand, WriteTextCommandResultFunc, error) {
+	if len(args) == 2 && strings.ToUpper(args[0]) == "PERSIST" {
+		args = append(args, "0")
+	}
 	if len(args) < 3 {
 		return nil, nil, errors.New("Command Parse Args Count Error")
 	}
